@@ -30,6 +30,7 @@ type SolverStats struct {
 	Unknown  int
 	Errors   int
 	Duration time.Duration
+	ResetDuration time.Duration
 }
 
 type Solver struct {
@@ -42,6 +43,8 @@ type Solver struct {
 	log     io.Writer // optional query log (thorough tier cross-check)
 	timeout int       // ms per query
 	dead    bool
+	scoped  bool
+	pathsSinceSync int
 }
 
 // NewSolver starts a solver. kind: "z3", "z3-new", "cvc5".
@@ -121,17 +124,24 @@ func (s *Solver) sync() []string {
 	return lines
 }
 
+// Reset starts a new path: everything declared and asserted by the previous path is
+// dropped by popping its scope (much cheaper than (reset)).
 func (s *Solver) Reset() {
-	if s.name == "cvc5" {
-		s.send("(reset)")
-		s.preamble()
-	} else {
-		s.send("(reset)")
-		s.preamble()
+	start := time.Now()
+	if s.scoped {
+		s.send("(pop 1)")
 	}
-	if lines := s.sync(); hasError(lines) {
-		s.stats.Errors++
+	s.send("(push 1)")
+	s.scoped = true
+	s.pathsSinceSync++
+	if s.pathsSinceSync >= 64 {
+		// keep the pipe from filling up with unread output and detect errors
+		s.pathsSinceSync = 0
+		if lines := s.sync(); hasError(lines) {
+			s.stats.Errors++
+		}
 	}
+	s.stats.ResetDuration += time.Since(start)
 }
 
 func hasError(lines []string) bool {
